@@ -59,6 +59,7 @@ def env():
     e["CARGO_NET_OFFLINE"] = "true"
     e["CARGO_TARGET_DIR"] = TARGET
     e.setdefault("RUST_BACKTRACE", "0")
+    e["ROTOV_DRIVER"] = os.path.join(LEAN, ".lake", "build", "bin", "rotov-driver")
     return e
 
 
